@@ -168,27 +168,43 @@ def typedEdges [DecidableEq α] (lt : α → α → Bool) (rows : List (α × α
   let es := rows.zip (w.map (castWeight kind))
   if f.sumDuplicates then es else firstRows lt es
 
+/-- the COO triples `(row, col, data)` handed to `csr_matrix` -/
+def cooOf (es : List ((α × α) × Rat)) (fr fc : α → Nat) : List (Nat × Nat × Rat) :=
+  es.map fun e => (fr e.1.1, fc e.1.2, e.2)
+
+/-- `sparse.csr_matrix((weights, (row, col)), shape=(n_row, n_col))` of the bipartite branch -/
+def bipMatrix (kind : Kind) (es : List ((α × α) × Rat)) (ar ac : Axis α) : Coo :=
+  csrOf ⟨ar.n, ac.n, kind, cooOf es ar.index ac.index⟩
+
+/-- the matrix of the other branch: `csr_matrix(..., shape=(n, n))`, then `directed2undirected` if not directed -/
+def sqMatrix (symW directed : Bool) (kind : Kind) (es : List ((α × α) × Rat)) (ax : Axis α) : Coo :=
+  let m := csrOf ⟨ax.n, ax.n, kind, cooOf es ax.index ax.index⟩
+  if directed then m else directed2undirected m symW
+
 /-- `from_edge_array(edge_array, weights, …)`. `symW f` is the `weighted` argument handed to
     `directed2undirected` (`f.weighted` in the code as it is; the pinned code used the default `True`: F13). -/
 def fromEdgeArrayWith [DecidableEq α] (symW : Flags → Bool) (lt : α → α → Bool) (asInt : Option (α → Int))
-    (rows : List (α × α)) (weights : Option (List Rat)) (f : Flags) : Except PyErr (Graph α) := do
+    (rows : List (α × α)) (weights : Option (List Rat)) (f : Flags) : Except PyErr (Graph α) :=
   let w := weights.getD (List.replicate rows.length 1)
-  if w.length != rows.length then throw .valueError
-  let kind := weightKind f.weighted w
-  let es := typedEdges lt rows w f
-  if f.bipartite then
-    let ar ← axisOf lt asInt f.reindex (f.shape.map (·.1)) (es.map (·.1.1))
-    let ac ← axisOf lt asInt f.reindex (f.shape.map (·.2)) (es.map (·.1.2))
-    let m := csrOf ⟨ar.n, ac.n, kind, es.map fun e => (ar.index e.1.1, ac.index e.1.2, e.2)⟩
-    pure { matrix := m, bipartite := true, names := ar.names, namesRow := ar.names, namesCol := ac.names,
-           matrixOnly := f.matrixOnly.getD ar.names.isNone }
+  if w.length != rows.length then .error .valueError
   else
-    let nodes := es.flatMap fun e => [e.1.1, e.1.2]
-    let ax ← axisOf lt asInt f.reindex (f.shape.map (·.1)) nodes
-    let m := csrOf ⟨ax.n, ax.n, kind, es.map fun e => (ax.index e.1.1, ax.index e.1.2, e.2)⟩
-    let m := if f.directed then m else directed2undirected m (symW f)
-    pure { matrix := m, bipartite := false, names := ax.names, namesRow := none, namesCol := none,
-           matrixOnly := f.matrixOnly.getD ax.names.isNone }
+    let kind := weightKind f.weighted w
+    let es := typedEdges lt rows w f
+    if f.bipartite then
+      match axisOf lt asInt f.reindex (f.shape.map (·.1)) (es.map (·.1.1)) with
+      | .error e => .error e
+      | .ok ar =>
+        match axisOf lt asInt f.reindex (f.shape.map (·.2)) (es.map (·.1.2)) with
+        | .error e => .error e
+        | .ok ac =>
+          .ok { matrix := bipMatrix kind es ar ac, bipartite := true, names := ar.names, namesRow := ar.names,
+                namesCol := ac.names, matrixOnly := f.matrixOnly.getD ar.names.isNone }
+    else
+      match axisOf lt asInt f.reindex (f.shape.map (·.1)) (es.flatMap fun e => [e.1.1, e.1.2]) with
+      | .error e => .error e
+      | .ok ax =>
+        .ok { matrix := sqMatrix (symW f) f.directed kind es ax, bipartite := false, names := ax.names,
+              namesRow := none, namesCol := none, matrixOnly := f.matrixOnly.getD ax.names.isNone }
 
 /-- the code as it is -/
 def fromEdgeArray [DecidableEq α] (lt : α → α → Bool) (asInt : Option (α → Int))
